@@ -1,11 +1,13 @@
 /-
   C13 — deterministic parallel mode does not depend on thread scheduling.  FALSE of the protocol as
-  modelled, for two independent reasons, each with a machine-checked counterexample:
+  modelled for two or more parallel runs, for two independent reasons, each with a machine-checked
+  counterexample:
    (i)  budget slices are granted in arrival order: which run gets the short last slice depends on
         the schedule (`c13_budget_counterexample`), although the total does not (C15);
-   (ii) the per-cycle barrier waits for the workers, not for the collector: the next cycle may copy
-        the shared best before or after the collector has processed the last message
-        (`c13_lag_counterexample`).
+   (ii) within a cycle a run copies the shared best whenever the scheduler lets it start — before or
+        after another run of the same cycle has reported (`c13_lag_counterexample`).
+  Repaired (KNOWN_FINDINGS `fixed: property=C13`): the same lag ACROSS cycles and between consecutive
+  runs with ONE parallel run (the collector had not yet processed the previous run's last result).
   What IS schedule independent (partial): within one cycle whose workers all start from the same
   solution, the collector's final best is the minimum of everything reported, for every arrival
   order of the messages (`c13_cycle_result_order_independent`); and the total iterations granted.
